@@ -89,6 +89,9 @@ MUTANTS = [
     ("c20-revert-atomic-group", "C20", V + "vmap_export.py",
      "            if group_name in parent_group:\n                del parent_group[group_name]\n            raise",
      "            raise"),
+    ("c20-revert-created-groups-removed", "C20", V + "vmap_export.py",
+     "                for parent_group, group_name in reversed(created_groups):\n                    if group_name in parent_group:\n                        del parent_group[group_name]\n                raise",
+     "                raise"),
     ("c20-revert-counter-rollback", "C20", V + "vmap_export.py",
      "                geometry_group.attrs['MYSIZE'] = variable_count\n", ""),
     # ---- C04: junction of the HCM passes
